@@ -607,8 +607,36 @@ struct runner_t
         }
     }
 
+    // the empty list of samples is a valid selection (repo fix 2030fc5: check() took min()/max() of an empty list):
+    // every view must accept it and return zero rows; no random draws here (the case streams stay as they were)
+    void query_empty_selection()
+    {
+        const auto idx = indices_t{};
+        try
+        {
+            tensor2d_t buffer;
+            const auto flat = ds->flatten(idx, buffer);
+            if (flat.size<0>() != 0) fail("empty-selection-flatten-rows", flat.size<0>());
+            if (target >= 0) { tensor4d_t tb; const auto t = ds->targets(idx, tb); if (t.size<0>() != 0) fail("empty-selection-targets-rows", t.size<0>()); }
+            for (size_t f = 0; f < dfs.size(); ++f)
+            {
+                const auto fi = static_cast<tensor_size_t>(f);
+                const auto& d = dfs[f];
+                if (d.kind == "sclass") { if (ds->select(idx, fi, sbuf).size() != 0) fail("empty-selection-select-rows", f); }
+                else if (d.kind == "mclass") { if (ds->select(idx, fi, mbuf).size<0>() != 0) fail("empty-selection-select-rows", f); }
+                else if (d.kind == "scalar") { if (ds->select(idx, fi, cbuf).size() != 0) fail("empty-selection-select-rows", f); }
+                else { if (ds->select(idx, fi, tbuf).size<0>() != 0) fail("empty-selection-select-rows", f); }
+            }
+        }
+        catch (const std::exception& e)
+        {
+            fail("empty-selection-rejected", e.what());
+        }
+    }
+
     void queries(int nsel)
     {
+        query_empty_selection();
         query_flatten();
         const auto F = dfs.size();
         if (F > 0)
